@@ -167,11 +167,48 @@ type vFailure struct {
 	OrigSize int      `json:"orig_size"`
 }
 
+// vCleanStale removes share-memory files and sockets that earlier harness processes left behind (a crash, a kill, or a leak
+// of the library version that was running then) and whose names could be mistaken for this process' own: every name the
+// harness creates carries the creating process' id, and process ids are reused. Names of processes that are still alive
+// (a check of another property running at the same time) are left alone.
+func vCleanStale() {
+	me := os.Getpid()
+	for _, dir := range []string{"/dev/shm", "/tmp"} {
+		ents, err := os.ReadDir(dir)
+		if err != nil {
+			continue
+		}
+		for _, e := range ents {
+			name := e.Name()
+			if !strings.HasPrefix(name, "verif_") {
+				continue
+			}
+			pid := 0
+			for _, tok := range strings.FieldsFunc(name, func(r rune) bool { return r == '_' || r == '.' }) {
+				if n, err := strconv.Atoi(tok); err == nil && n > 0 {
+					pid = n
+					break
+				}
+			}
+			if pid == 0 {
+				continue
+			}
+			if pid != me {
+				if _, err := os.Stat(fmt.Sprintf("/proc/%d", pid)); err == nil {
+					continue
+				}
+			}
+			os.Remove(dir + "/" + name)
+		}
+	}
+}
+
 func TestVerifMain(t *testing.T) {
 	propName := os.Getenv("VERIF_PROP")
 	if propName == "" {
 		t.Skip("VERIF_PROP not set")
 	}
+	vCleanStale()
 	p := vProps[propName]
 	if p == nil {
 		t.Fatalf("unknown VERIF_PROP %q", propName)
